@@ -6,6 +6,7 @@ import (
 	"go/constant"
 	"go/token"
 	"go/types"
+	"strings"
 
 	"golang.org/x/tools/go/packages"
 )
@@ -224,4 +225,27 @@ func HC18_recursiveDeclarations() {
 	}
 	vfObserve("outcome", msg)
 	vfAssert(!rt, "C18/analysis-no-runtime-error")
+}
+
+// HC18_pkgSelector: the package selector of any root package — import paths of one element (a module
+// named by one word, command-line-arguments), two, three and more — is built without a runtime error,
+// keeps the root package itself and the packages below its first two path elements, drops the others.
+func HC18_pkgSelector() {
+	paths := []string{"app", "command-line-arguments", "example.com/mod", "example.com/mod/sub", "a/b/c/d", "x/y"}
+	path := paths[vfChoice("root", len(paths))]
+	root := &packages.Package{ID: path, PkgPath: path}
+	var sel PkgSelector
+	panicked, rt, msg := vfCatch(func() { sel = NewPkgSelector(root) })
+	vfObserve("outcome", msg)
+	vfAssert(!panicked && !rt, "C18/package-selector-no-runtime-error")
+	if panicked {
+		return
+	}
+	vfAssert(!sel.Ignore(root), "C18/package-selector-keeps-the-root-package")
+	chunks := strings.Split(path, "/")
+	if len(chunks) >= 2 {
+		inside := &packages.Package{PkgPath: chunks[0] + "/" + chunks[1] + "/other"}
+		vfAssert(!sel.Ignore(inside), "C18/package-selector-keeps-the-packages-of-the-root-tree")
+	}
+	vfAssert(sel.Ignore(&packages.Package{PkgPath: "fmt"}) && sel.Ignore(&packages.Package{PkgPath: "other.org/lib/x"}), "C18/package-selector-drops-foreign-packages")
 }
